@@ -57,7 +57,14 @@ def gen_fanout_case(rng, n_samples=1):
 def gen_case(rng, i, multi_every=6, share_every=4, shipped_every=3, n_samples=1, **kw):
     if i % 9 == 4:
         return gen_fanout_case(rng, n_samples)
+    kw = dict(kw)
+    kw.setdefault("dup_output", 0.08)
+    if i % 7 == 5 and "kinds" not in kw and "n_ops" not in kw:
+        # deep graphs with many weight-bearing operators in a row (op-position bookkeeping over many insertions)
+        kw["n_ops"], kw["kinds"] = rng.randint(6, 12), gm.WEIGHT_HEAVY
     mb, info = gm.gen_model(rng, n_subgraphs=1 if i % multi_every else rng.choice([2, 2, 3]), share=0.3 if i % share_every == 0 else 0, name_hazard=0.1, **kw)
+    if kw.get("kinds") is gm.WEIGHT_HEAVY:
+        info["tags"].add("deep_weight_chain")
     data = gm.random_inputs(mb, rng, n=n_samples)
     if i % shipped_every == 0:
         name, rec = rng.choice(pl.shipped_recipes())
@@ -285,6 +292,17 @@ def failer(ctx, case, prefix=""):
 
 def gen_tied_case(rng, i):
     """tied-constant models x recipes assigning equal / different / no quantization to the sharers"""
+    if i % 6 == 5:
+        # only scalar constants are tied; the rules cover one operator type at a time (so that only one sharer is requested)
+        mb, info = gm.gen_tied_scalars(rng)
+        data = gm.random_inputs(mb, rng, n=1)
+        kinds = sorted({k for sg in info["subgraphs"] for k in sg["ops"] if k in ("ADD", "MUL", "SUB")})
+        if rng.random() < 0.25:
+            name, rec = rng.choice(pl.shipped_recipes())
+            return Case(mb, info, recipe=rec, data=data, desc=name)
+        cmds = [{"k": "add", "regex": ".*", "operation": op, "cfg": pl.UNIFORM[rng.choice(["a8w8", "a8sw8t", "a16w8"])],
+                 "alg": "min_max_uniform_quantize"} for op in rng.sample(kinds, rng.randint(1, len(kinds)))]
+        return Case(mb, info, cmds=cmds, data=data, desc=[(c["regex"], c["operation"], c["alg"]) for c in cmds])
     mb, info = gm.gen_tied(rng)
     data = gm.random_inputs(mb, rng, n=1)
     names = [n for sc in pl.scopes_of(mb) for n in sc.split(";") if n]
